@@ -35,10 +35,12 @@ GROUPS = {
                  bound="all 2^64 doubles, loop-free"),
         ] + [
             dict(name="rate_binade_%02d" % e, complete=True, props=["C12"], targets=["rate_to_n_alpha", "rate_to_n"], covers=1,
-                 tier="quick" if e in (0, 1, 7, 23, 51) else "thorough", timeout=600,
+                 tier="quick" if e in (0, 1, 23, 51) else "thorough", timeout=900,
                  bound="all f32 rates in (2^-%d, 2^-%d], all 2^64 draws; loop-free" % (e + 1, e)) for e in range(52)
         ] + [
-            dict(name="rate_to_n_small_rates", complete=True, props=["C12"], targets=["rate_to_n"], covers=2, timeout=600,
+            dict(name="rate_to_n_decision_all_rates_all_draws", complete=True, props=["C12"], targets=["rate_to_n"], covers=2, timeout=900,
+                 bound="all f32 rates in [2^-63, 1], all 2^64 draws; loop-free"),
+            dict(name="rate_to_n_small_rates", complete=True, props=["C12"], targets=["rate_to_n"], covers=2, timeout=900,
                  bound="all f32 rates in (0, 2^-52] incl. subnormals, all draws; loop-free"),
         ],
     ),
